@@ -19,7 +19,27 @@ CLAIMS = {
     },
 }
 
+CLAIMS['C12'] = {
+    'text': 'Lean theorems over the L0 model of the wire codec (packet/chunk/param/error-cause marshal and unmarshal, all 17 chunk types, '
+            '11 parameter kinds, 5 cause kinds), CRC uninterpreted: round trip dec(enc p)=p for every packet satisfying an explicit decidable '
+            'well-formedness predicate; locality (a chunk is decoded from its own length bytes, bundling changes nothing); chunkHeader/BE/padding '
+            'lemmas. Re-encode stability of ARBITRARY accepted packets is only proved for well-formed ones (two counter-examples are known findings '
+            'with witness theorems). Model tied to the code by differential runs through packet.marshal/unmarshal (byte-for-byte, field-for-field, '
+            'error class for error class) and by round-trip / stability / locality predicates evaluated on the implementation outputs. '
+            'That the association only builds well-formed packets (C12_emitted_wf) is not part of this check.',
+    'note': NOTE_COMMON,
+    'technique': 'Lean 4 proof (structural induction over the encoders, shift-invariance of the decoder loops) + model/implementation differential replay',
+}
+CLAIMS['C13'] = {
+    'text': 'Packet-level decision logic only: the exact acceptance rule of packet.unmarshal and the emission rule of packet.marshal / '
+            'Association.marshalPacket proved in Lean with the CRC uninterpreted; truth table re-evaluated on the implementation with an independent '
+            'bitwise CRC32c (itself compared with hash/crc32). The association-level parts (send-zero only after the peer advertised the DTLS method, '
+            'rejected packet leaves association state unchanged) are not covered here.',
+    'note': NOTE_COMMON,
+    'technique': 'Lean 4 proof (case analysis of the checksum stage) + model/implementation differential replay',
+}
+
 _PENDING = 'check not built yet in this round (planned, see DESIGN.md §5/§8); not claimed until its theorems and correspondence run'
-NOT_APPLICABLE = {p: _PENDING for p in ['C05', 'C01', 'C02', 'C03', 'C04', 'C06', 'C07', 'C08', 'C09', 'C10', 'C11', 'C12', 'C13', 'C14', 'C15', 'C17', 'C18', 'C19', 'C20']}
+NOT_APPLICABLE = {p: _PENDING for p in ['C05', 'C01', 'C02', 'C03', 'C04', 'C06', 'C07', 'C08', 'C09', 'C10', 'C11', 'C14', 'C15', 'C17', 'C18', 'C19', 'C20']}
 
 NOTES = 'Family of technique: machine-checked proof in Lean 4. See DESIGN.md. Known findings: known_findings.jsonl.'
